@@ -86,6 +86,13 @@ MUTATIONS = {
         ("programs/treasury/src/states/gt_bank.rs", "                .checked_mul_div(numerator, denominator)", "                .checked_mul_div_ceil(numerator, denominator)", "reserve_balances: rounded up"),
         ("programs/treasury/src/states/gt_bank.rs", "            balance.amount = reserve_balance;", "            balance.amount -= reserve_balance;", "reserve_balances: complement kept"),
     ],
+    "C38": [
+        ("programs/liquidity-provider/src/lib.rs", "        u64::MAX\n    } else {\n        gt_raw as u64", "        gt_raw as u64\n    } else {\n        gt_raw as u64", "reward: wrapping instead of saturating"),
+        ("programs/liquidity-provider/src/lib.rs", "    let gt_raw = apply_factor::<u128, MARKET_DECIMALS>(&per_sec_factor, &inv_cost_integral)", "    let gt_raw = apply_factor::<u128, MARKET_DECIMALS>(&staked_value_usd, &inv_cost_integral)", "reward: APY factor dropped"),
+        ("programs/liquidity-provider/src/lib.rs", "    acc / total_seconds\n", "    acc / (total_seconds + 1)\n", "apy: average over one second too many"),
+        ("programs/liquidity-provider/src/lib.rs", "    let capped_full: u128 = full_weeks.min(APY_LAST_INDEX as u128);", "    let capped_full: u128 = full_weeks.min(APY_LAST_INDEX as u128 - 1);", "apy: one full-week bucket dropped at the cap"),
+        ("programs/liquidity-provider/src/lib.rs", "    if rem_seconds > 0 {\n        let idx", "    if rem_seconds > 1 {\n        let idx", "apy: a one-second remainder ignored"),
+    ],
     "C45": [
         ("programs/store/src/states/glv.rs", "        if self.max_amount == 0 && self.max_value == 0 {", "        if self.max_amount == 0 || self.max_value == 0 {", "validate_balance: && -> || (one cap unset disables both)"),
         ("programs/store/src/states/glv.rs", "                &(new_balance as u128),\n                &market_pool_value.unsigned_abs(),\n                market_token_supply,", "                &(new_balance as u128),\n                market_token_supply,\n                &market_pool_value.unsigned_abs(),", "validate_balance: pool value and supply swapped"),
